@@ -26,6 +26,7 @@ RULE += ' Round 7: n_chunks_kept as NumPy integers of every width on grids of 13
 RULE += ' Round 8: one subset buffer refilled in place between three requests on one selector.'
 RULE += ' Round 9: counts of -1 / -3; chunk grids offset by 3e6 / 9e7.'
 RULE += ' Round 12: the caller overwrites an answer and makes the same request again.'
+RULE += ' Round 13: a cluster named twice before the others.'
 EXHAUSTIVE = {'quick': False, 'thorough': False}
 FLOORS = {'quick': {'evaluations': 60000, 'distinct_nontrivial': 3000,
                     'monitors': {'M2._flatten_per_cluster.checked': 10000, 'model_subset_judged': 30}},
